@@ -1258,8 +1258,10 @@ class Connection(ConnectionEventsTarget, inspection.Inspectable["Inspector"]):
         """
 
         if self._transaction:
+            # a transaction left inactive by a failed commit emits no
+            # rollback when closed; the pool's reset has to do it
+            skip_reset = self._transaction.is_active
             self._transaction.close()
-            skip_reset = True
         else:
             skip_reset = False
 
